@@ -1,7 +1,7 @@
 SPECIFICATION Spec
 CONSTANTS
   N = 3
-  L = 2
+  L = 1
 INVARIANT Selection
 INVARIANT FoldMeaning
 INVARIANT Idempotent
